@@ -49,6 +49,9 @@ def run(chk):
     for sc in scs:
         sc['same_func'] = rng.random() < .3
     for _sc in scs:
+        for _op in _sc['ops']:
+            if _op.get('input') != 'nd' and rng.random() < .15:
+                _op['ret'] = 'falsy'        # every other task returns 0 / None / '' / [] / 0.0 / False: still results
         if rng.random() < .25 and 'rules' not in _sc:
             _sc['rules'] = gen.schedule_rules(rng, _sc['pool']['n_jobs'])      # adversarial schedules
     obs = run_scenarios(chk, 'whole calls under DetSim (oracle: result == sequential evaluation)', scs, {'C01'},
